@@ -3,6 +3,7 @@ C05.I/C05.K: path-policy analysis of the walks on the hard-coded sequences; C05.
 run-time generated sequences handed to the decoder are the ones the walk used and are closed cycles (the decoder
 tracks the complementation mask per position, which is only valid if every flip cycle returns to the start
 before the next swap)."""
+from .. import facts as F
 from .C04 import analyse, generated, step_kernels
 
 LEVEL = "other"
@@ -13,3 +14,5 @@ def run(chk):
     generated(chk, "C05.Q")
     # the certificate decoder replays generator indices: the steps the walk applied must be those generators (n = 7, 8)
     step_kernels(chk, "C05.S")
+    from ..history import history_rule
+    history_rule(chk, "C05.H", F.load("dbg"))
